@@ -948,13 +948,40 @@ Error query_rw_info(Arch arch, const BaseInst& inst, const Operand_* operands, s
       }
     }
 
+    // Instructions where a register operand selects something that a memory operand cannot - the register cannot
+    // be replaced by memory in that case as the instruction would calculate a different result.
+    switch (inst_id) {
+      case Inst::kIdBt:
+      case Inst::kIdBtc:
+      case Inst::kIdBtr:
+      case Inst::kIdBts:
+        // Bit offset in a register is not limited to the size of the first operand if it's memory.
+        if (op_count == 2 && operands[1].is_reg()) {
+          rm_ops_mask &= ~uint32_t(0x1);
+        }
+        break;
+
+      case Inst::kIdInsertps:
+      case Inst::kIdVinsertps:
+        // The source element is selected by imm8[7:6] if the source is a register - memory source is a single element.
+        if (op_count >= 3 && operands[op_count - 1].is_imm() && (operands[op_count - 1].as<Imm>().value_as<uint32_t>() & 0xC0u) != 0u) {
+          rm_ops_mask &= ~Support::bit_mask<uint32_t>(uint32_t(op_count - 2u));
+        }
+        break;
+
+      default:
+        break;
+    }
+
     // Special cases require more logic.
     if (inst_rm_info.flags & (InstDB::RWInfoRm::kFlagMovssMovsd | InstDB::RWInfoRm::kFlagPextrw | InstDB::RWInfoRm::kFlagFeatureIfRMI)) {
       if (inst_rm_info.flags & InstDB::RWInfoRm::kFlagMovssMovsd) {
         if (op_count == 2) {
           if (operands[0].is_reg() && operands[1].is_reg()) {
-            // Doesn't zero extend the destination.
+            // Doesn't zero extend the destination, which means that the source register cannot be replaced by memory
+            // as that form zero extends.
             out->_operands[0]._extend_byte_mask = 0;
+            rm_ops_mask &= ~uint32_t(0x2);
           }
         }
       }
